@@ -1,5 +1,5 @@
 (* C18 - HTTP Datagrams carry their stream ID and payload unchanged. *)
-From H3V Require Import Base.Bytes Spec.RFC9000 Spec.RFC9297 Model.Varint Model.Datagram Proofs.DatagramProofs.
+From H3V Require Import Base.Bytes Gen.GenDatagram Spec.RFC9000 Spec.RFC9297 Model.Varint Model.Datagram Proofs.DatagramProofs.
 
 (* T1a: the encoded buffer's remaining bytes are exactly varint(S/4) ++ P *)
 Theorem C18_encode_bytes :
@@ -48,6 +48,10 @@ Theorem C18_decode_is_rfc :
                    end.
 Proof. exact dg_decode_spec. Qed.
 
+(* the source's `impl Buf for EncodedDatagram` defines remaining/chunk/advance and nothing else (regenerated fact) *)
+Theorem C18_buf_impl_shape : Gen.GenDatagram.buf_methods = [1; 2; 3].
+Proof. exact buf_impl_is_the_three_required_methods. Qed.
+
 Example C18_encode_inhabited :
   exists st, dg_encode 8 [[120; 121]] = Ok st /\ dg_view st = [2; 120; 121].
 Proof. eexists. split; vm_compute; reflexivity. Qed.
@@ -62,3 +66,4 @@ Print Assumptions C18_chunk_is_prefix.
 Print Assumptions C18_advance_exact.
 Print Assumptions C18_roundtrip.
 Print Assumptions C18_decode_is_rfc.
+Print Assumptions C18_buf_impl_shape.
